@@ -12,14 +12,15 @@ PINS = {
     'C04': ['exec_pool', 'exec_container'],
     'C05': ['exec_container'],
     'C06': ['sim_loop', 'status_queries', 'exec_executor'],
-    'C07': ['sim_loop', 'exec_executor', 'exec_container', 'param_defaults', 'sched_registry'],
-    'C08': ['sim_loop', 'dag_iter', 'exec_executor', 'param_defaults', 'sched_registry'],
+    'C07': ['sim_loop', 'exec_executor', 'exec_container', 'param_defaults', 'sched_registry', 'workload_gen'],
+    'C08': ['sim_loop', 'dag_iter', 'exec_executor', 'param_defaults', 'sched_registry', 'workload_gen'],
     'C09': ['exec_pool', 'exec_executor', 'exec_assignment', 'exec_container'],
     'C10': ['exec_pool', 'exec_container'],
     'C11': ['exec_pool', 'exec_container'],
     'C12': ['status_queries'],
     'C13': ['trace_replay', 'csv_io'],
     'C14': ['trace_replay', 'csv_io'],
+    'C15': ['workload_gen'],
     'C16': ['status_queries'],
     'C17': ['status_queries'],
     'C18': ['status_queries'],
